@@ -8,6 +8,8 @@ From Coq Require Import List Bool.
 From GV Require Import Base.Outcome Base.AMap Model.GState Model.Creation Model.Query Spec.AGraph Spec.History.
 From GV Require Import Model.Derived.
 From GV Require Import Proofs.WFDefs Proofs.HistoryOk Proofs.QueryOk Proofs.DegreeOk Proofs.NoPanic Proofs.DerivedContent Proofs.QueryTotal.
+From Coq Require Import ZArith QArith String.
+From GV Require Import Model.Dijkstra Spec.EdgeStoreGraph Proofs.DijkstraTotalOk Proofs.DijkstraModelOk Proofs.DijkstraWF Proofs.DijkstraWFExamples.
 Import ListNotations.
 
 Section C20.
@@ -161,4 +163,58 @@ Section C20.
     destruct (H2 u v) as (e & f). destruct (H3 xs) as (_ & h & _).
     repeat split; assumption.
   Qed.
+
+  (* ---- the shortest-path entry points (dijkstra.rs) on every WF graph ----
+     [fine o] = o is Ok or Err: no Panic, no OutOfFuel.  [small_adj]: fewer than 2^31-1
+     adjacency entries (the i32 counter of dijkstra.rs overflows — panics in a debug
+     build — beyond that); true for every graph of at most 46340 nodes. *)
+
+  (* index level, ANY weights (negative ones may give Err ContradictoryPaths), any
+     options, any cutoff *)
+  Theorem C20_dijkstra_never_panics : forall (g : gstate) weighted src target cutoff fo wp,
+    WF g -> small_adj g -> (src < number_of_nodes g)%nat ->
+    fine (dijkstra g weighted src target cutoff fo wp).
+  Proof. exact (wf_dijkstra_fine teqb tltb). Qed.
+
+  Theorem C20_dijkstra_basic_never_panics : forall (g : gstate) weighted src,
+    WF g -> small_adj g -> (src < number_of_nodes g)%nat -> fine (dijkstra_basic g weighted src).
+  Proof. exact (wf_dijkstra_basic_fine teqb tltb). Qed.
+
+  (* single_source: ANY weights, ANY source / target names (absent: Err NodeNotFound),
+     ANY cutoff *)
+  Theorem C20_single_source_never_panics : forall (g : gstate) weighted source target cutoff fo wp,
+    WF g -> small_adj g -> fine (single_source teqb g weighted source target cutoff fo wp).
+  Proof. exact (wf_single_source_fine teqb tltb). Qed.
+
+  (* multi_source / all_pairs / get_all_shortest_paths_involving unwrap the per-source
+     Result (dijkstra.rs:376, :172), so with NEGATIVE weights a ContradictoryPaths becomes a
+     panic (C20_negative_weights_panic below): for them the statement is for non-negative
+     stored weights (hop count: none needed) and a cutoff >= 0, any names, any options. *)
+  Theorem C20_multi_source_never_panics_partial : forall threads (g : gstate) weighted sources target cutoff fo wp,
+    WF g -> small_adj g -> (weighted = true -> weights_nonneg g) -> cutoff_exceeded cutoff 0 = false ->
+    fine (multi_source teqb threads g weighted sources target cutoff fo wp).
+  Proof. exact (wf_multi_source_fine teqb tltb teqb_spec tltb_total). Qed.
+
+  Theorem C20_all_pairs_never_panics_partial : forall threads (g : gstate) weighted target cutoff fo wp,
+    WF g -> small_adj g -> (weighted = true -> weights_nonneg g) -> cutoff_exceeded cutoff 0 = false ->
+    fine (all_pairs teqb threads g weighted target cutoff fo wp).
+  Proof. exact (wf_all_pairs_fine teqb tltb teqb_spec tltb_total). Qed.
+
+  Theorem C20_involving_never_panics_partial : forall threads (g : gstate) (x : T) weighted,
+    WF g -> small_adj g -> (weighted = true -> weights_nonneg g) ->
+    exists l, get_all_shortest_paths_involving teqb threads g x weighted = Ok l.
+  Proof. exact (wf_involving_fine teqb tltb teqb_spec tltb_total). Qed.
 End C20.
+
+(* Why the three _partial statements carry "non-negative weights": on a reachable graph
+   with a negative weight the model of multi_source / all_pairs does panic (the Rust code
+   unwraps the per-source Result), while single_source returns the error. *)
+Example C20_negative_weights_panic :
+  match ex_neg with
+  | Ok g =>
+    single_source Z.eqb g true 1%Z None None false true = Err ContradictoryPaths /\
+    multi_source Z.eqb 1 g true [1%Z] None None false true = Panic "dijkstra.rs:376" /\
+    all_pairs Z.eqb 1 g true None None false true = Panic "dijkstra.rs:172"
+  | _ => False
+  end.
+Proof. exact negative_weights_panic. Qed.
